@@ -458,7 +458,7 @@ func genC11(g *gen) {
 		n = 80
 	}
 	g.kernelMatrix(cmpOps, true, []string{"safe", "same", "unsafe", "reuse-bool", "reuse-same"})
-	g.scalarTensorMatrix([]string{"lt", "gte", "eq"}, []string{"f64", "i32", "u8", "i64"}, []string{"safe", "same", "unsafe", "reuse-same"})
+	g.scalarTensorMatrix([]string{"lt", "gte", "eq", "ne"}, []string{"f64", "i32", "u8", "i64"}, []string{"safe", "same", "unsafe", "reuse-same"})
 	for _, op := range cmpOps {
 		dts := ordDtypes
 		if op == "eq" || op == "ne" {
